@@ -128,13 +128,22 @@ Proof.
   apply in_flat_map. exists x. split; auto.
 Qed.
 
-Theorem rt_sig_all : forall s, sig_ctx s ->
-  load_sig now ev' (save_sig s) = Ok (sig_set_pos s 0) /\ sig_size ev' s = sig_size ev s.
+Definition mux_fits (lim : Z) (s : sig) : Prop := match s with SMux _ _ z _ => z <= lim | _ => True end.
+
+Lemma calc_size_nonneg : forall v, 0 <= calc_size v.
 Proof.
-  induction s using sig_ind'; intros (Hall & Hok & Hd & Hinj).
+  intros v. unfold calc_size. destruct (v =? 0); [lia|]. destruct (v <? 0); [lia|].
+  pose proof (Z.log2_nonneg v). lia.
+Qed.
+
+Theorem rt_sig_all : forall s, sig_ctx s -> forall lim, mux_fits lim s ->
+  load_sig now ev' lim (save_sig s) = Ok (sig_set_pos s 0) /\ sig_size ev' s = sig_size ev s.
+Proof.
+  induction s using sig_ind'; intros (Hall & Hok & Hd & Hinj) lim Hfit.
   - apply (rt_sig_simple now n); auto. apply Hall. apply in_eq.
   - apply (rt_sig_simple now n); auto. apply Hall. apply in_eq.
   - (* multiplexer *)
+    cbn [mux_fits] in Hfit.
     split; [|reflexivity].
     rename H into IHg.
     cbn [sig_okb sig_head] in Hok. apply andb_true_iff in Hok. destruct Hok as [Hasg Hok].
@@ -158,9 +167,14 @@ Proof.
       - intros t Ht. apply Hall. eapply sig_flat_child; eauto.
       - intros a b Ha Hb. apply Hinj; eapply sig_flat_child; eauto. }
     assert (IHx : forall x, In x (List.concat groups) ->
-              load_sig now ev' (save_sig (snd x)) = Ok (sig_set_pos (snd x) 0) /\ sig_size ev' (snd x) = sig_size ev (snd x)).
+              load_sig now ev' z (save_sig (snd x)) = Ok (sig_set_pos (snd x) 0) /\ sig_size ev' (snd x) = sig_size ev (snd x)).
     { intros x Hx. destruct (Hmem x Hx) as (g & Hg & Hxg). rewrite Forall_forall in IHg. specialize (IHg g Hg).
-      rewrite Forall_forall in IHg. apply (IHg x Hxg). apply Hctx; auto. }
+      rewrite Forall_forall in IHg. apply (IHg x Hxg); [apply Hctx; auto|].
+      (* a multiplexed multiplexer fits in the group that holds it *)
+      pose proof (Hgrp g Hg) as Gg. apply andb_true_iff in Gg. destruct Gg as [Gl _].
+      destruct (layout_okb_facts _ _ _ _ Gl) as [_ F]. specialize (F (snd x) (in_map snd _ _ Hxg)).
+      destruct (snd x) as [h0 t0 u0|h0 e0|h0 c0 z0 g0]; cbn [mux_fits]; auto.
+      cbn [sig_size] in F. pose proof (calc_size_nonneg (c0 - 1)). lia. }
     (* the saved form *)
     cbn [save_sig sig_head sig_kind_num].
     change (map (map (fun c0 : bool * sig => (fst c0, sig_id (snd c0), save_sig (snd c0)))) groups) with (map (map tr) groups).
@@ -168,6 +182,8 @@ Proof.
     cbn [load_sig]. rewrite load_save_entity by auto. cbn [bind].
     change (dec_sig_kind 3 =? 3) with true. cbn [negb].
     rewrite !u32_id by auto.
+    destruct (z >? lim) eqn:E5; [apply Z.gtb_lt in E5; lia|].
+    rewrite map_length. rewrite Hlenb, Z.eqb_refl. cbn [negb].
     destruct (c <? 0) eqn:E1; [apply Z.ltb_lt in E1; lia|]. destruct (c =? 0) eqn:E2; [apply Z.eqb_eq in E2; lia|].
     destruct (z <? 0) eqn:E3; [apply Z.ltb_lt in E3; lia|]. destruct (z =? 0) eqn:E4; [apply Z.eqb_eq in E4; lia|].
     (* the members are loaded once each *)
